@@ -480,6 +480,14 @@ def setitem(it, base, idx, v, line=None):
 def delitem(it, base, idx, line=None):
     if isinstance(base, VDict):
         return dict_delete(it, base, idx, line)
+    if isinstance(base, VList) and idx == ('slice', None, None, None):
+        # del xs[:]  empties the list in place (identity kept)
+        it.mutating(base)
+        if base.symbolic:
+            base.seq = z3.Empty(base.seq.sort())
+        else:
+            base.items = []
+        return None
     raise Unsupported('del on %r' % (base,))
 
 
